@@ -140,7 +140,7 @@ def gen_less_case(rng):
 
 
 def gen_cases(rng, tier):
-    n = 320 if tier == 'quick' else 4000
+    n = 208 if tier == 'quick' else 4000
     cases = []
     for i in range(n):
         cases.append(gen_case(rng, tier))
@@ -150,7 +150,7 @@ def gen_cases(rng, tier):
         cases.append(c)
     for _ in range(n // 16):
         cases.append(gen_case(rng, tier, dict(fault=True)))
-    for _ in range(40 if tier == 'quick' else 400):
+    for _ in range(24 if tier == 'quick' else 400):
         cases.append(gen_less_case(rng))
     return cases
 
@@ -479,7 +479,7 @@ def run(res, rng, tier):
             res.corr_bad.append(dict(case=c, obs=strip(o), note='no observation to compare'))
             continue
         terms.append((c, o, coq_term(c, o)))
-    bad, err = core.coq_mismatches(HEADER, 'c18case', 'c18_agree', [t[2] for t in terms], 'c18', shard=60)
+    bad, err = core.coq_mismatches(HEADER, 'c18case', 'c18_agree', [t[2] for t in terms], 'c18', shard=(34 if tier == 'quick' else 120))
     if err:
         res.corr_bad.append(dict(error=err))
     for i in bad:
@@ -519,7 +519,7 @@ TRUSTED = [
 ]
 ASSUME = [
     'references carry name and length only in generated cases (attribute-merging paths of AddReference belong to C07)',
-    'merge_sorted for an arbitrary priority queue assumes the container/heap contract (Section hypothesis); for the transcribed container/heap it is proved',
+    'container/heap is represented by a hand transcription of heap.Init/Push/Pop/up/down (Model/Merger.v, GoHeap); its contract (bag, totality, heap order for comparisons between a preorder and its strict part) is proved for the transcription, not assumed; merge_sorted_any_queue states the merger\'s correctness for any queue meeting that contract',
 ]
 
 CLAIM = dict(
@@ -530,7 +530,8 @@ CLAIM = dict(
          'against the implementation on generated input sets (empty and failing inputs, permuted reference lists, all sort orders) inside coqc on every run; '
          'an independent sort-and-compare oracle judges the implementation.',
     note='Trusted: Coq kernel; the hand-written model (tied by exact output-sequence correspondence on every run); bam.Reader as a stream that returns (nil, err) on failure; '
-         'MergeHeaders abstracted to its renumbering (C07). The priority queue is a Section parameter with the container/heap contract; a transcription of container/heap is '
-         'also given and used for the correspondence.',
+         'MergeHeaders abstracted to its renumbering (C07). The priority queue is a parameter of the model; container/heap is transcribed by hand (Init/Push/Pop/up/down) and proved to meet the '
+         'contract (bag laws, no panic, heap order for every comparison between a preorder and its strict part), so no theorem carries a heap hypothesis; '
+         'the transcription itself is tied by the exact-sequence correspondence.',
     technique='Coq proof over hand-written executable model + vm_compute correspondence + sort-and-compare oracle',
     design='6/C18')
